@@ -168,7 +168,7 @@ impl Cli {
 }
 
 const APPS: [&str; 3] = ["live", "app/x", "\u{e9}"];
-const KEYS: [&str; 4] = ["key1", "stream key", "k", "\u{fc}"];
+const KEYS: [&str; 8] = ["key1", "stream key", "k", "\u{fc}", "", "abcde", "sixsix", "a-long-stream-key-of-thirty-two-"];
 const SIDS: [u32; 6] = [0, 1, 2, 5, 1000, 0x7FFFFFFF];
 
 fn cmd(name: &str, txn: f64, obj: Amf0Value, args: Vec<Amf0Value>) -> RtmpMessage {
